@@ -127,19 +127,17 @@ impl<T: Qcow2IoOps> Qcow2Dev<T> {
         key: usize,
         slice_off: usize,
         slice: L2Table,
-    ) -> Qcow2Result<()> {
-        match self
+    ) -> Qcow2Result<AsyncLruCacheEntry<L2TableHandle>> {
+        let (entry, evicted) = self
             .add_cache_slice(&self.l2cache, l1_e, key, slice_off, slice)
-            .await?
-        {
-            Some(to_kill) => {
-                log::warn!("add_l2_slice: cache eviction, slices {}", to_kill.len());
-                // figure exact dependency on refcount cache & reftable entries
-                self.flush_refcount().await?;
-                self.flush_cache_entries(to_kill).await
-            }
-            _ => Ok(()),
+            .await?;
+        if let Some(to_kill) = evicted {
+            log::warn!("add_l2_slice: cache eviction, slices {}", to_kill.len());
+            // figure exact dependency on refcount cache & reftable entries
+            self.flush_refcount().await?;
+            self.flush_cache_entries(to_kill).await?;
         }
+        Ok(entry)
     }
 
     #[inline]
@@ -150,7 +148,6 @@ impl<T: Qcow2IoOps> Qcow2Dev<T> {
     ) -> Qcow2Result<AsyncLruCacheEntry<L2TableHandle>> {
         let info = &self.info;
         let key = split.l2_slice_key(info);
-        let l2_cache = &self.l2cache;
 
         log::debug!(
             "get_l2_slice_slow: l1_e {:x} virt_addr {:x}",
@@ -164,13 +161,7 @@ impl<T: Qcow2IoOps> Qcow2Dev<T> {
             split.l2_slice_off_in_table(info),
             L2Table::new(None, 1 << info.l2_slice_bits, info.cluster_bits()),
         )
-        .await?;
-
-        if let Some(entry) = l2_cache.get(key) {
-            Ok(entry)
-        } else {
-            Err("Fail to load l2 table".into())
-        }
+        .await
     }
 
     #[inline]
